@@ -174,6 +174,12 @@ Proof.
     apply IH; lia.
 Qed.
 
+Lemma outer_shape_entries o (x y : list T) :
+  length (outer o x y) = (length x * length y)%nat
+  /\ forall d i j, (i < length x)%nat -> (j < length y)%nat ->
+       nth (i * length y + j) (outer o x y) d = bop_ev o (nth i x d) (nth j y d).
+Proof. split; [apply outer_length | intros; apply outer_nth; assumption]. Qed.
+
 (* reduceat: one output row per index *)
 Lemma reduceat_rows_length o (rs : list (list T)) idx : length (reduceat_rows o rs idx) = length idx.
 Proof. induction idx as [|i idx IH]; cbn; auto. Qed.
@@ -209,6 +215,10 @@ Proof.
   unfold at2. revert a; induction ivs as [|iv ivs IH]; intros a Hn; cbn in *; auto.
   rewrite IH by tauto. apply updn_nth_other. tauto.
 Qed.
+Lemma at2_length_frame o (a : list T) ivs :
+  length (at2 o a ivs) = length a
+  /\ forall j d, ~ In j (map fst ivs) -> nth j (at2 o a ivs) d = nth j a d.
+Proof. split; [apply at2_length | intros; apply at2_frame; assumption]. Qed.
 (* with distinct indices, at equals the buffered fancy-index assignment *)
 Lemma at2_fancy2_nodup o (a : list T) ivs : NoDup (map fst ivs) ->
   Forall (fun iv => (fst iv < length a)%nat) ivs ->
